@@ -16,14 +16,13 @@ EXTENDS Naturals, Sequences, FiniteSets, Json, TLC
 CONSTANT TraceFile
 
 V(n, t, s) == [name |-> n, type |-> t, sub |-> s]
-Vals == {V(n, t, s) : n \in {"", "a", "B"}, t \in {"T1", "T2"}, s \in {"", "s"}}
+Vals == {V(n, t, s) : n \in {"", "a", "B"}, t \in {"T1", "T2"}, s \in {"", "s", "k=v"}}
 Lower(n) == IF n = "B" THEN "b" ELSE n
 Lists == UNION {[1..k -> Vals] : k \in 0..3}
-\* distinct values; no repeated name; a type-only key (the type) at most once per subtype
+\* distinct values; no repeated name (type-only values of one type may differ in their subtype)
 WF(q) == \A i, j \in DOMAIN q : i # j =>
             /\ q[i] # q[j]
             /\ (q[i].name # "" /\ q[j].name # "") => Lower(q[i].name) # Lower(q[j].name)
-            /\ (q[i].name = "" /\ q[j].name = "") => q[i].type # q[j].type
 Descs == {[vals |-> q, kind |-> "list"] : q \in {x \in Lists : WF(x)}}
          \cup {[vals |-> q, kind |-> "lifted"] : q \in {<<V("", "T1", "")>>, <<V("", "T1", ""), V("", "T2", "")>>, <<V("", "T2", ""), V("", "T1", "")>>}}
 
